@@ -34,3 +34,14 @@ def rng(seed, *stream):
 def site_from_detail(rule, plan, detail):
     ctx = detail.get("context") if isinstance(detail, dict) else None
     return ctx or "general"
+
+
+def add_send_errors(cfg, seed, pid, idx, p=0.15, horizon=4.0):
+    """engine `single`: with probability p a window in which sendto() of the node fails and is reported through
+    error_received() (NetFaults.send_error). Drawn from a stream of its own, after the plan is complete, so that the
+    plan is otherwise what it was without the fault. The transmission is recorded before it fails: oracles that judge
+    what the library hands to its transport are not affected by the fault as such."""
+    r2 = rng(seed, pid, idx, "senderr")
+    if r2.random() < p:
+        t0 = round(r2.choice([0.0, r2.uniform(0.0, horizon)]), 3)
+        cfg["send_errors"] = [{"t0": t0, "t1": round(t0 + r2.choice([0.05, 0.5, 3.0, 10.0]), 3), "rate": r2.choice([0.3, 1.0])}]
